@@ -1,4 +1,4 @@
-import TinodeVerif.Model.TopicReq
+import TinodeVerif.Model.TopicP2P
 import TinodeVerif.Driver.Wire
 /-! Driver for the world stream (`TestVerifWorld`): one op per line, one output line per op, rendered exactly like the
 Go harness renders the real frames and state. -/
@@ -53,8 +53,18 @@ def storeDigest (w : World) : List String :=
 def sessDigest (w : World) : List String :=
   w.sess.map (fun s => s!"{s.sid}\{{",".intercalate (s.subs.mergeSort (· ≤ ·))}}")
 
+/-- a p2p topic is known to each participant by the other participant's name: the key `P:Ua:Ub` in a frame is replaced by
+the name under which the user of the receiving session addresses the topic (prepareBroadcastableMessage, Topic.original) -/
+def renameFor (uid : Uid) (f : String) : String :=
+  " ".intercalate ((f.splitOn " ").map (fun w =>
+    if w.startsWith "P:" then
+      match w.splitOn ":" with
+      | ["P", x, y] => if uid = x then y else if uid = y then x else w
+      | _ => w
+    else w))
+
 def render (st : WSt) (c : Ctx) : String :=
-  let frames := st.w.sess.flatMap (fun s => (c.frames.filter (·.1 = s.sid)).map (fun (sid, f) => s!"{sid}<-{f}"))
+  let frames := st.w.sess.flatMap (fun s => (c.frames.filter (·.1 = s.sid)).map (fun (sid, f) => s!"{sid}<-{renameFor s.uid f}"))
   -- sessions created before this op only; all frames belong to known sessions
   let parts := frames ++ c.pushes ++ [s!"calls={",".intercalate c.calls}"] ++ cacheDigest c.w ++ storeDigest c.w ++ sessDigest c.w
   " | ".intercalate parts
@@ -109,25 +119,42 @@ def step (st : WSt) (ws : List String) : Option (WSt × String) :=
         match resolveActor c0 s (parseAs m) with
         | .error c => some c
         | .ok a =>
+          let isUser (t : String) : Bool := t.startsWith "U"
           match op, rest with
           | "newgrp", _ =>
             let o : NewGrpOpts := { auth := optStr (kvGet m "auth"), anon := optStr (kvGet m "anon"), want := kvGet m "want", priv := privArg (kvGet m "priv"), pub := privArg (kvGet m "pub") }
             some (c0.opNewGrp a o)
-          | "sub", t :: _ => some (c0.opSub a t (optStr (kvGet m "mode")) (privArg (kvGet m "priv")) (kvGet m "user" ≠ ""))
-          | "leave", t :: _ => some (c0.opLeave a t (kvGet m "unsub" = "1"))
-          | "pub", t :: content :: _ => some (c0.opPub a t content (parseHead (kvGet m "head")) (kvGet m "noecho" = "1"))
-          | "note", t :: what :: seq :: _ => (decInt seq).map (fun q => c0.opNote a t what q)
+          | "sub", t :: _ =>
+            if isUser t then some (c0.opSubP2P a t (optStr (kvGet m "mode")) (privArg (kvGet m "priv")) (kvGet m "user"))
+            else some (c0.opSub a t (optStr (kvGet m "mode")) (privArg (kvGet m "priv")) (kvGet m "user" ≠ ""))
+          | "leave", t :: _ =>
+            if isUser t then some (c0.opLeaveP2P a t (kvGet m "unsub" = "1")) else some (c0.opLeave a t (kvGet m "unsub" = "1"))
+          | "pub", t :: content :: _ =>
+            let tn := if isUser t then p2pKey a.uid t else t
+            if isUser t ∧ t = a.uid then some (c0.emit a.sid (ctrl 403 tn)) else
+            some (c0.opPub a tn content (parseHead (kvGet m "head")) (kvGet m "noecho" = "1"))
+          | "note", t :: what :: seq :: _ =>
+            if isUser t then (decInt seq).map (fun q => c0.opNoteP2P a t what q) else (decInt seq).map (fun q => c0.opNote a t what q)
           | "get", t :: what :: _ =>
-            some (c0.opGet a t what ((decInt (kvGet m "since")).getD 0) ((decInt (kvGet m "before")).getD 0) ((decInt (kvGet m "limit")).getD 0))
-          | "setsub", t :: _ => some (c0.opSetSub a t (kvGet m "user") (optStr (kvGet m "mode")))
+            let since := (decInt (kvGet m "since")).getD 0
+            let before := (decInt (kvGet m "before")).getD 0
+            let limit := (decInt (kvGet m "limit")).getD 0
+            if isUser t then some (c0.opGetP2P a t what since before limit) else some (c0.opGet a t what since before limit)
+          | "setsub", t :: _ =>
+            if isUser t then some (c0.opSetSubP2P a t (kvGet m "user") (optStr (kvGet m "mode")))
+            else some (c0.opSetSub a t (kvGet m "user") (optStr (kvGet m "mode")))
           | "setdesc", t :: _ =>
             let o : SetDescOpts := { auth := optStr (kvGet m "auth"), anon := optStr (kvGet m "anon"), pub := privArg (kvGet m "pub"), priv := privArg (kvGet m "priv") }
-            some (c0.opSetDesc a t o)
-          | "delmsg", t :: rs :: _ => some (c0.opDelMsg a t (parseRangesArg rs) (kvGet m "hard" = "1"))
-          | "delsub", t :: u :: _ => some (c0.opDelSub a t u)
-          | "deltopic", t :: _ => some (c0.opDelTopic a t (kvGet m "hard" = "1"))
-          | "fg", _ => some (c0.opFg sid)
-          | "drop", _ => some (c0.opDrop sid)
+            if isUser t then some (c0.opSetDescP2P a t o) else some (c0.opSetDesc a t o)
+          | "delmsg", t :: rs :: _ =>
+            let tn := if isUser t then p2pKey a.uid t else t
+            if isUser t ∧ t = a.uid then some (c0.emit a.sid (ctrl 403 tn)) else
+            some (c0.opDelMsg a tn (parseRangesArg rs) (kvGet m "hard" = "1"))
+          | "delsub", t :: u :: _ => if isUser t then some (c0.opDelSubP2P a t) else some (c0.opDelSub a t u)
+          | "deltopic", t :: _ =>
+            if isUser t then some (c0.opDelTopicP2P a t (kvGet m "hard" = "1")) else some (c0.opDelTopic a t (kvGet m "hard" = "1"))
+          | "fg", _ => some (c0.opFgAll sid)
+          | "drop", _ => some (c0.opDropAll sid)
           | _, _ => none
       match c with
       | none => none
